@@ -91,6 +91,12 @@ type c10Run struct {
 	afterCl   int32 // use after the client closed the connection
 	noDeadl   int32 // blocking read without a deadline (harness fail-safe fired)
 	filterAux bool  // drop the no-op cleaner events (sequential mode: deterministic trace)
+
+	// Client-level runs (c10cli.go)
+	ppol     int                   // what the peer does after a request that carried Connection: close (0 nothing, 1 closes silently after the answer, 2 echoes the header)
+	arrived  map[int]chan struct{} // closed when the peer has read held request id
+	hostOpen []int32               // connections currently open per host (dialled and not yet closed by the client)
+	hostMax  []int32               // maximum of hostOpen over the run
 }
 
 // live runs, keyed by *http1.HostClient and (for the wantConn-only sites) by *wantConn
@@ -208,6 +214,14 @@ type peerConn struct {
 	tainted      bool // previous exchange did not end cleanly: must never carry another request
 	rdl          time.Time
 	users        int32
+	host         int      // index of the host this connection was dialled to (Client-level runs)
+	held         *heldReq // a request the peer has read but not answered yet (released by the script)
+}
+
+// heldReq is a request kept unanswered by the peer until the script releases it.
+type heldReq struct {
+	fault, id int
+	sawClose  bool
 }
 
 func (p *peerConn) enter() {
@@ -304,72 +318,121 @@ func (p *peerConn) process() {
 		}
 		head := string(p.in[:he])
 		cl := 0
+		sawClose := false
 		for _, ln := range strings.Split(head, "\r\n")[1:] {
 			if i := strings.IndexByte(ln, ':'); i > 0 && strings.EqualFold(ln[:i], "Content-Length") {
 				cl, _ = strconv.Atoi(strings.TrimSpace(ln[i+1:]))
+			} else if i > 0 && strings.EqualFold(ln[:i], "Connection") && strings.EqualFold(strings.TrimSpace(ln[i+1:]), "close") {
+				sawClose = true
 			}
 		}
 		if len(p.in) < he+4+cl {
 			return
 		}
 		p.in = p.in[he+4+cl:]
-		// request line: METHOD /<fault>/<id>/<ctxmode> HTTP/1.1
+		// request line: METHOD /<fault>/<id>/<ctxmode>[/<hold>] HTTP/1.1
 		parts := strings.Split(strings.Fields(head)[1], "/")
 		fault, _ := strconv.Atoi(parts[1])
 		id, _ := strconv.Atoi(parts[2])
 		ctxm, _ := strconv.Atoi(parts[3])
-		if len(p.out) > 0 {
+		hold := len(parts) > 4 && parts[4] == "1"
+		if len(p.out) > 0 || p.held != nil {
 			atomic.AddInt32(&p.run.dirty, 1) // previous response not consumed
 		}
 		p.run.mu.Lock()
 		p.run.sends[id]++
+		first := p.run.sends[id] == 1
 		cancel := p.run.cancels[id]
+		arrived := p.run.arrived[id]
 		p.run.mu.Unlock()
 		if ctxm == 2 && cancel != nil {
 			cancel()
 		}
-		body := strconv.Itoa(id)
-		full := "HTTP/1.1 200 OK\r\nContent-Type: text/plain\r\nContent-Length: " + strconv.Itoa(len(body)) + "\r\n"
-		switch fault {
-		case fOK:
-			p.out = append(p.out, full+"\r\n"+body...)
-		case fOKClose:
-			p.out = append(p.out, full+"Connection: close\r\n\r\n"+body...)
-			p.tainted = true
-		case fOKThenClose:
-			p.out = append(p.out, full+"\r\n"+body...)
-			p.peerClosed = true
-		case fOKThenRST:
-			p.out = append(p.out, full+"\r\n"+body...)
-			p.peerClosed, p.writeFails = true, true
-		case fCloseFirst:
-			p.peerClosed, p.tainted = true, true
-		case fCloseMidHdr:
-			p.out = append(p.out, "HTTP/1.1 200 OK\r\nContent-Ty"...)
-			p.peerClosed, p.tainted = true, true
-		case fCloseMidBdy:
-			p.out = append(p.out, "HTTP/1.1 200 OK\r\nContent-Length: 10\r\n\r\nabc"...)
-			p.peerClosed, p.tainted = true, true
-		case fStall:
-			p.tainted = true
-		case fStallMidBdy:
-			p.out = append(p.out, "HTTP/1.1 200 OK\r\nContent-Length: 10\r\n\r\nabc"...)
-			p.tainted = true
-		case fGarbage:
-			p.out = append(p.out, "\x00\xff garbage \r\n: x\r\n\r\n"...)
-			p.tainted = true
-		case fDouble:
-			// outside the property's alphabet: a second, unsolicited response on the same connection
-			p.out = append(p.out, full+"\r\n"+body+full+"\r\n"+body...)
+		if hold && first {
+			// the answer is withheld until the script releases it; the connection is busy meanwhile
+			p.held = &heldReq{fault: fault, id: id, sawClose: sawClose}
+			if arrived != nil {
+				close(arrived)
+			}
+			return
 		}
+		p.respond(fault, id, sawClose)
 		p.signal()
 	}
 }
 
+// respond produces the scripted answer to request id.  Caller holds p.mu.
+func (p *peerConn) respond(fault, id int, sawClose bool) {
+	body := strconv.Itoa(id)
+	full := "HTTP/1.1 200 OK\r\nContent-Type: text/plain\r\nContent-Length: " + strconv.Itoa(len(body)) + "\r\n"
+	if sawClose {
+		// the client announced that this exchange is the last one on the connection: whatever the
+		// peer does next, another request on it is a reuse after Connection: close
+		p.tainted = true
+	}
+	switch fault {
+	case fOK:
+		switch {
+		case sawClose && p.run.ppol == 1:
+			p.out = append(p.out, full+"\r\n"+body...)
+			p.peerClosed = true
+		case sawClose && p.run.ppol == 2:
+			p.out = append(p.out, full+"Connection: close\r\n\r\n"+body...)
+			p.peerClosed = true
+		default:
+			p.out = append(p.out, full+"\r\n"+body...)
+		}
+	case fOKClose:
+		p.out = append(p.out, full+"Connection: close\r\n\r\n"+body...)
+		p.tainted = true
+	case fOKThenClose:
+		p.out = append(p.out, full+"\r\n"+body...)
+		p.peerClosed = true
+	case fOKThenRST:
+		p.out = append(p.out, full+"\r\n"+body...)
+		p.peerClosed, p.writeFails = true, true
+	case fCloseFirst:
+		p.peerClosed, p.tainted = true, true
+	case fCloseMidHdr:
+		p.out = append(p.out, "HTTP/1.1 200 OK\r\nContent-Ty"...)
+		p.peerClosed, p.tainted = true, true
+	case fCloseMidBdy:
+		p.out = append(p.out, "HTTP/1.1 200 OK\r\nContent-Length: 10\r\n\r\nabc"...)
+		p.peerClosed, p.tainted = true, true
+	case fStall:
+		p.tainted = true
+	case fStallMidBdy:
+		p.out = append(p.out, "HTTP/1.1 200 OK\r\nContent-Length: 10\r\n\r\nabc"...)
+		p.tainted = true
+	case fGarbage:
+		p.out = append(p.out, "\x00\xff garbage \r\n: x\r\n\r\n"...)
+		p.tainted = true
+	case fDouble:
+		// outside the property's alphabet: a second, unsolicited response on the same connection
+		p.out = append(p.out, full+"\r\n"+body+full+"\r\n"+body...)
+	}
+	p.signal()
+}
+
+// release answers the held request, if any.
+func (p *peerConn) release() {
+	p.mu.Lock()
+	if h := p.held; h != nil {
+		p.held = nil
+		p.respond(h.fault, h.id, h.sawClose)
+		p.process()
+	}
+	p.mu.Unlock()
+}
+
 func (p *peerConn) Close() error {
 	p.mu.Lock()
+	was := p.clientClosed
 	p.clientClosed = true
 	p.mu.Unlock()
+	if !was && p.run.hostOpen != nil {
+		atomic.AddInt32(&p.run.hostOpen[p.host], -1)
+	}
 	p.signal()
 	return nil
 }
@@ -406,6 +469,17 @@ func (d c10Dialer) DialConnection(n, address string, timeout time.Duration, tlsC
 		return nil, errC10Dial
 	}
 	pc := &peerConn{id: len(r.all), run: r, wake: make(chan struct{}, 1)}
+	if r.hostOpen != nil {
+		// Client-level run: the address is "h<k>:80"
+		pc.host, _ = strconv.Atoi(strings.TrimSuffix(strings.TrimPrefix(address, "h"), ":80"))
+		if pc.host < 0 || pc.host >= len(r.hostOpen) {
+			pc.host = 0
+		}
+		n := atomic.AddInt32(&r.hostOpen[pc.host], 1)
+		if n > atomic.LoadInt32(&r.hostMax[pc.host]) {
+			atomic.StoreInt32(&r.hostMax[pc.host], n) // dials of one run are serialised by r.mu
+		}
+	}
 	r.all = append(r.all, pc)
 	conn := standard.VerifNewConn(pc, 4096)
 	r.cmap[conn] = pc
@@ -767,4 +841,3 @@ func c10ReqTokens(q c10Req) []string {
 	}
 	return []string{m, itoa(q.fault), itoa(q.ctxm), b2i(q.dialFail)}
 }
-
